@@ -180,16 +180,22 @@ def renamed_init(ctx, rule):
     # the name the path is extended by is the one the member was given: Renamed.__init__ stores newname (else the wrapped construct's name),
     # and likewise docs / parsed hook
     fi, paths = own_method_paths(ctx, "Renamed", "__init__")
-    w = {}
-    for p in paths:
-        for e in p.events:
-            if e.kind == "SELFWRITE" and e["base"] == SELF:
-                w.setdefault(e["attr"], set()).add(e["value"])
     sc = ("param", "subcon")
     for attr, par in (("name", "newname"), ("docs", "newdocs"), ("parsed", "newparsed")):
-        want = {("ite", ("param", par), ("param", par), ("attr", sc, attr)), ("ite", N.mk_cmp("is not", ("param", par), N.NONE), ("param", par), ("attr", sc, attr)),
-                ("bool", "or", (("param", par), ("attr", sc, attr)))}
-        ctx.ob(rule, fi, len(paths) >= 1 and bool(w.get(attr)) and w[attr] <= want, "Renamed.__init__ stores %s = %s if given, else the wrapped construct's" % (attr, par), key="init %s" % attr)
+        given = ("param", par)
+        ok, nw = True, 0
+        for p in paths:
+            for e in p.events:
+                if e.kind == "SELFWRITE" and e["base"] == SELF and e["attr"] == attr:
+                    nw += 1
+                    v = e["value"]
+                    if v == ("bool", "or", (given, ("attr", sc, attr))):
+                        continue
+                    d = decided(p, given)
+                    if d is None:
+                        d = decided(p, N.mk_cmp("is not", given, N.NONE))
+                    ok = ok and ((d is True and v == given) or (d is False and v == ("attr", sc, attr)))
+        ctx.ob(rule, fi, ok and nw >= 1, "Renamed.__init__ stores %s = %s if given, else the wrapped construct's" % (attr, par), key="init %s" % attr)
 
 def run(ctx):
     M = ctx.model
